@@ -82,6 +82,20 @@ impl<'a, I, O> ExecStmt<'a, I, O> {
     }
 }
 
+#[cfg(feature = "verif")]
+impl<'a, I, O> ExecStmt<'a, I, O> {
+    fn verif_stmt(&self, phase: crate::verif::Phase) {
+        let depth = self.env.borrow().verif_scope_depth();
+        let flow = match self.control_flow_state {
+            ControlFlowState::Normal => crate::verif::Flow::Normal,
+            ControlFlowState::Breaking => crate::verif::Flow::Breaking,
+            ControlFlowState::Continuing => crate::verif::Flow::Continuing,
+            ControlFlowState::Returning => crate::verif::Flow::Returning,
+        };
+        crate::verif::stmt(phase, depth, flow);
+    }
+}
+
 impl<'a, I: Read, O: Write> ExecStmt<'a, I, O> {
     fn visit_loop<const INVERT: bool>(
         &mut self,
@@ -165,7 +179,11 @@ impl<'a, I: Read, O: Write> VisitProgram for ExecStmt<'a, I, O> {
             Block::Empty(_) => Ok(()),
             Block::NonEmpty(statements) => {
                 for s in statements {
+                    #[cfg(feature = "verif")]
+                    self.verif_stmt(crate::verif::Phase::Before);
                     self.visit_statement(s)?;
+                    #[cfg(feature = "verif")]
+                    self.verif_stmt(crate::verif::Phase::After);
                     if self.control_flow_state.skip_rest_of_block() {
                         break;
                     }
